@@ -61,6 +61,7 @@ type SeededPrefix struct {
 	Last    int64  `json:"last"`
 	Corrupt int    `json:"corrupt"`
 	Churn   int    `json:"churn"`
+	Large   int    `json:"large"`
 }
 
 const replayFormat = "memefish-verif-replay/1"
